@@ -588,7 +588,9 @@ class MemFs(VirtualFilestore):
         if f.base:
             # pristine source file: Hs(n) clamps at the file size, as reading stops at EOF
             size = _z(f.size)
-            return SymChecksum(Hs(ct, z3.If(n > size, size, n)))
+            nn = z3.simplify(z3.If(n > size, size, n))
+            self.w.hs_claims.append(nn)  # a peer will compare its own checksum with this one
+            return SymChecksum(Hs(ct, nn))
         h = z3.Int(ctx.fresh("H"))
         i = z3.Int(ctx.fresh("i"))
         end = _z(self.file_end(k))
@@ -605,6 +607,8 @@ class MemFs(VirtualFilestore):
             if self.w.nonzero_source:
                 # a hole (reads as zero) is distinguishable from the source at the instantiated points
                 cons.extend(z3.Implies(z3.And(0 <= p, p < n), C(0, p) != ZERO8) for p in pts)
+                for m in self.w.hs_claims:
+                    cons.extend(z3.Implies(z3.And(0 <= p, p < m), C(0, p) != ZERO8) for p in pts)
             for m in self.w.hs_claims:
                 cons.append(z3.Implies(h == Hs(ct, m), z3.And(n == m, end >= n, *oks)))
         self.cks_calls.append({"h": h, "n": n, "upto": upto, "path": k})
